@@ -59,6 +59,23 @@ theorem layers_are_trotter (n : ℕ) (order : ℤ) (dt : ℚ) (ly : List ℕ × 
     obtain ⟨ℓ, _, rfl⟩ := h
     exact ⟨ℓ, rfl⟩
 
+/-- **every gate acts on its own bond**: the gate built from `nn_full_liouvillians[i]` is given
+    the site `i` (generated `gate_site`), so the gates of a layer act on exactly the bonds of
+    their slice positions, no bond twice, and the two layers together carry every bond once -/
+theorem gate_on_own_bond (n : ℕ) :
+    (∀ i, gateSite i = i) ∧
+    (∀ ℓ sl, TebdLayers.trotter_slices[ℓ]? = some sl → layerBonds n ℓ = sliceBonds (numBonds n) sl) ∧
+    (∀ ℓ, (layerBonds n ℓ).Nodup) ∧
+    (∀ h : ℕ → ℚ, ((layerBonds n 0).map h).sum + ((layerBonds n 1).map h).sum
+        = ∑ i ∈ Finset.range (n - 1), h i) := by
+  refine ⟨gateSite_eq, ?_, ?_, fun h => layers_partition n h⟩
+  · intro ℓ sl hsl
+    unfold layerBonds
+    rw [hsl]
+    exact map_gateSite _
+  · intro ℓ
+    exact (layerBonds_pairwise n ℓ).imp (fun {a b} (h : a + 2 ≤ b) => by omega)
+
 /-- within a Trotter layer, different gates replace different tensors, and no gate copies a
     tensor another gate of the layer replaces — for all chain lengths -/
 theorem layer_gates_disjoint (n ℓ a b : ℕ) (ha : a ∈ layerBonds n ℓ) (hb : b ∈ layerBonds n ℓ)
